@@ -37,7 +37,7 @@ def vm_crosscheck(ctx, histories, model):
     for h, scr in enumerate(histories):
         pre = []
         for l in scr:
-            if l.split(' ')[0] in ('RF', 'EN', 'DE', 'RC', 'RT', 'SNAP', 'REST', 'RFBAD'): break
+            if l.split(' ')[0] in ('RF', 'EN', 'DE', 'RC', 'RT', 'SNAP', 'REST', 'RFBAD', 'AP'): break
             pre.append(l)
         if len(pre) >= 6: picked.append((h, pre))
         if len(picked) >= 4: break
